@@ -228,8 +228,63 @@ def ModelFn_(name, fn):
     return ModelFn(name, fn)
 
 
+class ResumedHistogram(Spec):
+    """LeaseCheckingCrawler.add_initial_state (run by load_state) followed by add_lease_age_to_histogram: a cycle resumed
+    from the JSON state file -- where the cycle-to-date histogram is a list of [minage, maxage, count] -- goes on counting
+    exactly where it stopped; the first lease examined after a restart does not kill the slice"""
+    file = "allmydata/storage/expirer.py"
+    qualname = "LeaseCheckingCrawler.add_initial_state"
+    cross_check = 0
+    raises = ()
+    canary_case = {"saved": 1, "age": 0}
+    SAVED = [{}, {(0, 86400): 2}, {(0, 86400): 1, (172800, 259200): 5}]
+
+    def inputs(self):
+        return {"saved": ChoiceK([0, 1, 2]), "age": ChoiceK([0, 86399, 86400, 200000]), "form": ChoiceK(["json", "memory", "absent"])}
+
+    def all_cases(self):
+        return [{"saved": sv, "age": ag, "form": f} for sv in range(3) for ag in (0, 86399, 86400, 200000) for f in ("json", "memory", "absent")]
+
+    canary_case = {"saved": 1, "age": 0, "form": "json"}
+
+    def config(self):
+        return {"overrides": {"log.msg": lambda I, a, kw: 1}}
+
+    def run(self, I, a):
+        import json
+        before = dict(self.SAVED[a["saved"]])
+        ctd = {"corrupt-shares": [], "leases-per-share-histogram": {}}
+        if a["form"] == "json":
+            ctd["lease-age-histogram"] = json.loads(json.dumps([[k_[0], k_[1], v] for k_, v in sorted(before.items())]))
+        elif a["form"] == "memory":
+            ctd["lease-age-histogram"] = dict(before)
+        else:
+            before = {}
+        state = {"cycle-to-date": ctd} if a["form"] != "absent" else {}
+        cr = SObj(self.module().LeaseCheckingCrawler, {"state": state})
+        I.call_value(self.target(I), [cr], {})
+        I.call_value(I.get_attr(cr, "add_lease_age_to_histogram"), [a["age"]], {})
+        out = Outcome("return", cr)
+        out.post = {"before": before, "listed": I.call_value(I.get_attr(cr, "convert_lease_age_histogram"), [cr.fields["state"]["cycle-to-date"]["lease-age-histogram"]], {})}
+        return out
+
+    def ensures(self, I, a, out):
+        before = out.post["before"]
+        h = out.value.fields["state"]["cycle-to-date"]["lease-age-histogram"]
+        b = (a["age"] // 86400) * 86400
+        want = dict(before)
+        want[(b, b + 86400)] = want.get((b, b + 86400), 0) + 1
+        got = dict((tuple(getattr(k_, "v", k_)) if not isinstance(k_, tuple) else k_, v) for k_, v in h.items()) if isinstance(h, dict) else None
+        listed = sorted(tuple(x) for x in out.post["listed"])
+        return [("the-resumed-histogram-is-the-saved-one-plus-this-lease", z3.BoolVal(got == want)),
+                ("and-it-is-saved-again-in-the-same-list-form", z3.BoolVal(listed == sorted((k_[0], k_[1], v) for k_, v in want.items())))]
+
+    def canary(self, I, a, out):
+        return [("canary", z3.BoolVal(out.post["listed"] == []))]
+
+
 def contracts(tier):
     s = ProcessShare()
     if tier == "thorough":
         s.maxleases = 5
-    return [s, ClientExpiryConfig()]
+    return [s, ClientExpiryConfig(), ResumedHistogram()]
